@@ -14,7 +14,7 @@ def correspondence(ctx):
     cases = []
     for prof in ('um', 'up'):
         for op in ('prepare', 'enforce'):
-            cases += profile_cases(ctx, prof, op, USER_ALPHA, maxlen, 3000 if ctx.tier == 'quick' else 60000)
+            cases += profile_cases(ctx, prof, op, xa(ctx, USER_ALPHA, 5), maxlen, 3000 if ctx.tier == 'quick' else 60000)
             # implementation-level oracle: composition of the profile's public rules in RFC order
         for s in all_strings(USER_ALPHA, maxlen - 1, 0):
             cases.append(f'composed|{prof}|prepare|{hexs(s)}')
